@@ -8,6 +8,7 @@ SPECIFICATION Spec
 INVARIANT Partition
 INVARIANT StripBijection
 INVARIANT CoordCentre
+INVARIANT StripIndexing
 INVARIANT PaintsInside
 INVARIANT Faithful
 INVARIANT ModelCovers
